@@ -1562,6 +1562,50 @@ package sarama
 //@   returns r
 //@   ensures r == (client.brokers == nil)
 
+// Read paths: each answer is computed inside one critical section of client.lock, i.e. from one state that
+// satisfies the monitor invariant (the state before or after a refresh, never a mixture).
+//@ func (client *client) cachedPartitions(topic, partitionSet) props C15 C17
+//@   returns r
+//@   requires partitionSet == allPartitions || partitionSet == writablePartitions
+//@   ensures[unknown_topic_is_nil] !haskey(client.cachedPartitionsResults, topic) ==> isnil(r)
+//@   ensures[sorted] forall a, b :: 0 <= a && a < b && b < len(r) ==> r[a] <= r[b]
+//@   ensures[only_known] client.metadata != nil && client.cachedPartitionsResults != nil && haskey(client.cachedPartitionsResults, topic) ==> forall k :: 0 <= k && k < len(r) ==> haskey(client.metadata[topic], r[k]) && (partitionSet == writablePartitions ==> client.metadata[topic][r[k]].Err != ErrLeaderNotAvailable)
+//@   ensures[complete] client.metadata != nil && client.cachedPartitionsResults != nil && haskey(client.cachedPartitionsResults, topic) ==> forall p int32 :: haskey(client.metadata[topic], p) && (partitionSet == writablePartitions ==> client.metadata[topic][p].Err != ErrLeaderNotAvailable) ==> exists k :: 0 <= k && k < len(r) && r[k] == p
+
+//@ func (client *client) cachedMetadata(topic, partitionID) props C15
+//@   returns r
+//@   ensures[from_metadata] client.metadata[topic] != nil && haskey(client.metadata[topic], partitionID) ==> r == client.metadata[topic][partitionID]
+//@   ensures[unknown_is_nil] client.metadata[topic] == nil || !haskey(client.metadata[topic], partitionID) ==> r == nil
+
+//@ func (client *client) cachedController() props C15
+//@   returns b
+//@   ensures b == client.brokers[client.controllerID]
+
+//@ func dupInt32Slice(input) props C15
+//@   returns ret
+//@   ensures[copy] len(ret) == len(input) && forall k :: 0 <= k && k < len(input) ==> ret[k] == input[k]
+//@   ensures[fresh_backing] !isnil(ret)
+
+// The other critical sections of client.lock leave the metadata caches alone; the monitor invariant is re-proved
+// at their Unlock.
+// A-close: Close is not run twice concurrently (two callers passing the Closed() test would both close(client.closer)).
+//@ func (client *client) Close() props C15
+//@   returns err
+//@   requires !chanclosed(client.closer)
+//@   ensures[closed] acquired() ==> client.brokers == nil && client.metadata == nil && client.metadataTopics == nil
+
+//@ func (client *client) deregisterBroker(broker) props C15
+//@   requires broker != nil
+
+//@ func (client *client) resurrectDeadBrokers() props C15
+
+//@ func (client *client) deregisterController() props C15
+
+//@ func (client *client) registerBroker(broker) props C15
+//@   requires lockheld(client.lock)
+//@   requires broker != nil
+//@   ensures[registered] old(client.brokers) != nil ==> client.brokers[broker.id] != nil && client.brokers[broker.id].addr == broker.addr
+
 // BEGIN generated: client.updateMetadata (tools/gen_c15_contract.py in the verification directory)
 // A-close: the client is not closed between the Closed() test and the critical section (Close racing with a refresh
 // would make updateBroker write to a nil map; outside the property).
